@@ -1,12 +1,80 @@
 mod calibrate;
 mod smoke;
+mod report;
+mod rustharness;
+mod rustcheck;
 pub mod compile;
+
+fn opt(args: &[String], k: &str) -> Option<String> {
+    args.iter().position(|a| a == k).and_then(|i| args.get(i + 1).cloned())
+}
 
 fn main() {
     let args: Vec<String> = std::env::args().collect();
     let code = match args.get(1).map(|s| s.as_str()) {
         Some("calibrate") => calibrate::run(),
         Some("smoke") => smoke::run(&args[2..]),
+        Some("mkreplay") => {
+            // pdlv mkreplay <prop> <file.pdl> <type> <hex:..|json:..|int:..> <class> <out.json>
+            let prop = &args[2];
+            let text = std::fs::read_to_string(&args[3]).expect("pdl file");
+            let d = compile::desc_of_text("d0.pdl", &text).expect("parse");
+            let input = if let Some(h) = args[5].strip_prefix("hex:") {
+                serde_json::json!({"hex": h})
+            } else if let Some(j) = args[5].strip_prefix("json:") {
+                serde_json::json!({"json": serde_json::from_str::<serde_json::Value>(j).expect("json")})
+            } else if let Some(j) = args[5].strip_prefix("int:") {
+                serde_json::json!({"int": j.parse::<u64>().expect("int")})
+            } else {
+                panic!("input")
+            };
+            let rec = serde_json::json!({"property": prop, "pdl": pdlv_core::print::plain(&d), "model": d, "type": args[4], "input": input, "class": args[6], "how_to_run": format!("./vcheck replay {}", args[7])});
+            std::fs::write(&args[7], serde_json::to_string_pretty(&rec).unwrap()).expect("write");
+            0
+        }
+        Some("replay") => {
+            let file = args.get(2).cloned().unwrap_or_default();
+            let v: serde_json::Value = serde_json::from_str(&std::fs::read_to_string(&file).expect("replay file")).expect("json");
+            let prop = v["property"].as_str().unwrap_or("").to_string();
+            let d: pdlv_core::model::Desc = serde_json::from_value(v["model"].clone()).expect("model");
+            match prop.as_str() {
+                "C01" | "C02" | "C03" | "C04" | "C05" | "C06" | "C15" | "C17" | "C18" => match rustcheck::build_single("replay", &d) {
+                    Ok(b) => match rustharness::replay(&b, &prop, std::path::Path::new(&file), &rustharness::load_kf().1) {
+                        Ok(out) => {
+                            println!("{}", serde_json::to_string_pretty(&out).unwrap());
+                            let bad = out["failures"].as_array().map(|a| a.iter().any(|f| f["known"].is_null())).unwrap_or(false);
+                            if bad {
+                                println!("VIOLATION property={prop} replay={file}");
+                                1
+                            } else {
+                                0
+                            }
+                        }
+                        Err(e) => {
+                            eprintln!("{}", e.0);
+                            2
+                        }
+                    },
+                    Err(e) => {
+                        eprintln!("{e}");
+                        2
+                    }
+                },
+                _ => 2,
+            }
+        }
+        Some("check") => {
+            let prop = args.get(2).cloned().unwrap_or_default();
+            let tier = opt(&args, "--tier").unwrap_or_else(|| std::env::var("VERIF_TIER").unwrap_or("quick".into()));
+            let seed: u64 = opt(&args, "--seed").and_then(|s| s.parse().ok()).or_else(|| std::env::var("VERIF_SEED").ok().and_then(|s| s.parse().ok())).unwrap_or(1);
+            match prop.as_str() {
+                "C01" | "C02" | "C03" | "C04" | "C05" | "C06" | "C15" | "C17" | "C18" => rustcheck::run(&prop, &tier, seed),
+                _ => {
+                    eprintln!("unknown property {prop}");
+                    2
+                }
+            }
+        }
         _ => {
             eprintln!("usage: pdlv <calibrate|...>");
             2
